@@ -101,15 +101,22 @@ def postprocess(src, dst):
                 last_answered = log[start - 1] if start > 0 else None
                 may_use = (not sc.get("auth_required")) or any(r_.get("op") == "auth" and r_.get("rep", {}).get("t") == "ok" for r_ in log)
                 if last_answered is not None and last_answered.get("op") == "auth" and last_answered.get("rep", {}).get("t") == "err":
-                    idx = start - 1
+                    cands = [start - 1]
                 elif start >= len(log):
-                    idx = len(log) - 1
+                    cands = [len(log) - 1]
                 else:
-                    idx = start
-                    if may_use:
-                        idx = next((i for i in range(start, len(log)) if log[i].get("op") != "acquire"), start)
+                    # candidates: behind every leading acquire of the run, and behind its first other record
+                    cands = []
+                    for i in range(start, len(log)):
+                        cands.append(i)
+                        if log[i].get("op") != "acquire":
+                            break
                 # srv: the SERVER ended this session - the specification must have a reason for that
-                log.insert(idx + 1, {"op": "closed", "c": cid, "srv": True, "inv": log[idx].get("inv", 0) if log else 0, "ret": INF})
+                for n_, idx in enumerate(reversed(cands)):
+                    m_ = {"op": "closed", "c": cid, "srv": True, "inv": log[idx].get("inv", 0) if log else 0, "ret": INF}
+                    if n_ == 0:
+                        m_["last"] = True
+                    log.insert(idx + 1, m_)
             sess[name] = log
         # real-time order: a record needs every record of another session that returned before it was sent
         for name, log in sess.items():
@@ -224,7 +231,7 @@ def rand_request(rnd, name, tids, subs, lss, pubs, v1=True, odd=False):
     if odd and rnd.random() < 0.3:
         k = rnd.choice([[""], ["$SYS", "x"], ["a", "", ""], ["?"], ["a", "#", "b"], ["x" * 300], ["$SYS", "clients", name, "clientName"]])
     ops = ["get", "pget", "set", "set", "delete", "pdelete", "publish", "spubinit", "spub", "sub", "psub", "unsub",
-           "subls", "unsubls", "ls", "pls"]
+           "subls", "subls", "unsubls", "ls", "pls"]
     if v1:
         ops += ["cget", "cset", "cset", "lock", "release", "acquire"]
     if odd:
@@ -260,7 +267,8 @@ def rand_request(rnd, name, tids, subs, lss, pubs, v1=True, odd=False):
     elif op == "subls":
         t = tid()
         lss.append(t)
-        it.update(parent=k[:rnd.randint(0, len(k))], tid=t)
+        # (the root is a parent like any other - and the one with its own code paths)
+        it.update(parent=[] if rnd.random() < 0.35 else k[:rnd.randint(0, len(k))], tid=t)
     elif op == "unsubls":
         it.update(tid=lss.pop(rnd.randrange(len(lss))) if lss and rnd.random() < 0.8 else 997)
     elif op == "ls":
